@@ -8,12 +8,15 @@ import WM.Lemmas.DFAFuel
 import WM.Lemmas.LevSucc
 import WM.Lemmas.ListCorrector
 import WM.Lemmas.FuzzyIndex
+import WM.Lemmas.LevUtf8
 /-!
 C19 - fuzzy matching and spelling suggestions are exact with respect to edit distance.
 
 Specification: `WM.Edit.lev`, `WM.Edit.osa` (the documented distance), `WM.Edit.within`.
 Model: `WM/Model/Lev.lean` (mirrors the whoosh code after the three `fix:` commits of this family).
-Strings of real characters are `Valid` (every code point ≤ U+10FFFF); lexicons are `SortedLex`.
+Strings of real characters are `Valid` (every code point is a Unicode scalar value: ≤ U+10FFFF
+and not a surrogate); lexicons are `SortedLex` (code point order) resp. `SortedBytes` (the order of
+the stored UTF-8 keys - the same order: `utf8_order`).
 
 What is proved here, for all words / lexicons / limits / `d` / `p`:
 * the specification recursions compute the minimum edit-script cost, are symmetric, `osa ≤ lev`;
@@ -28,6 +31,10 @@ What is proved here, for all words / lexicons / limits / `d` / `p`:
   accepted string at or after its argument (the lexicographic-successor lemma);
 * `walk`: with such a successor function the term-cursor walk returns exactly the accepted terms
   of a sorted lexicon (and terminates);
+* `utf8_order`, `utf8_injective`, `cursor_bytes`, `terms_within_single_bytes`: the automaton walks
+  code points, the term cursor compares UTF-8 bytes - the encoding is strictly monotone, so the
+  walk over the byte-ordered dictionary returns exactly `within lev` too, and never asks the
+  cursor for a string that cannot be encoded (`next_valid` returns real characters only);
 * `terms_within_single`: the automaton path returns exactly `within lev`;
   `terms_within_multi`: the generic (multi-segment) path returns exactly `within osa`;
 * the property itself ("same for one segment or many, w.r.t. the documented distance") is FALSE of
@@ -171,7 +178,7 @@ example :
   · intro s _
     by_cases h : s ≤ [2]
     · right
-      refine ⟨[2], ?_, rfl, h, ?_⟩
+      refine ⟨[2], ?_, rfl, h, ?_, by simp [Valid, Scalar, maxCodePoint]⟩
       · show Except.ok _ = _; rw [if_pos ((lexLe_iff _ _).mpr h)]
       · intro t _ _ ht
         have : t = [2] := by simpa [acc] using ht
@@ -219,6 +226,60 @@ theorem terms_within_single (lex : List (List Nat)) (w : List Nat) (d p : Nat) (
   intro t _
   exact hacc t
 
+/-! ### Code points vs bytes -/
+
+/-- **UTF-8 byte order is code point order** (for every pair of strings; no range restriction is
+    needed for the order), so a term dictionary sorted by key bytes is sorted by code points. -/
+theorem utf8_order (s t : List Nat) : (utf8 s < utf8 t ↔ s < t) ∧ (utf8 s ≤ utf8 t ↔ s ≤ t) :=
+  ⟨utf8_lt_iff s t, utf8_le_iff s t⟩
+
+/-- ... in particular for non-BMP and surrogate-adjacent characters, where UTF-16 code unit order
+    would differ: U+FFFF < U+10000 and U+D7FF < U+E000 as bytes. -/
+example : utf8 [0xFFFF] = [0xEF, 0xBF, 0xBF] ∧ utf8 [0x10000] = [0xF0, 0x90, 0x80, 0x80] ∧
+    utf8 [0xD7FF] = [0xED, 0x9F, 0xBF] ∧ utf8 [0xE000] = [0xEE, 0x80, 0x80] ∧
+    utf8 [0x10FFFF] = [0xF4, 0x8F, 0xBF, 0xBF] ∧ utf8 [0x7F, 0x80, 0x7FF, 0x800] =
+      [0x7F, 0xC2, 0x80, 0xDF, 0xBF, 0xE0, 0xA0, 0x80] := by
+  simp [utf8, utf8Char]
+
+/-- The encoding is injective (the stored key determines the term). -/
+theorem utf8_injective (s t : List Nat) (h : utf8 s = utf8 t) : s = t := WM.Lev.utf8_injective h
+
+/-- **The byte-level cursor**: `cur.find(term)` - encode, first key `≥` in byte order, decode -
+    raises nothing for a term of real characters and lands on the first term `≥ term` in code
+    point order; stated for any strictly monotone encoding and for UTF-8.  A string with a
+    surrogate cannot be looked up (`UnicodeEncodeError`). -/
+theorem cursor_bytes (lex : List (List Nat)) (term : List Nat) :
+    (∀ enc : List Nat → List Nat, (∀ s t, enc s < enc t ↔ s < t) →
+      (lex.find? fun t => lexLe (enc term) (enc t)) = cursorFind lex term) ∧
+    (Valid term → cursorFindBytes lex term = .ok (cursorFind lex term)) ∧
+    cursorFindBytes lex [97, 0xD800] = .error .encodeError :=
+  ⟨fun enc henc => cursor_enc enc henc lex term, cursorFindBytes_eq lex, cursorFindBytes_surrogate lex⟩
+
+/-- **Single-segment path over the byte-ordered term dictionary**: walking the Levenshtein DFA in
+    code point order against a cursor that compares UTF-8 bytes returns exactly the lexicon terms
+    that share the prefix and are within plain Levenshtein distance - no `UnicodeEncodeError`
+    (after "fix: DFA.find_next_edge steps over the surrogate block"), no term skipped. -/
+theorem terms_within_single_bytes (lex : List (List Nat)) (w : List Nat) (d p : Nat) (hw : Valid w)
+    (hv : ∀ t, t ∈ lex → Valid t) (hs : SortedBytes lex) :
+    termsWithinSegBytes lex w d p = .ok (within lev lex w d p) := by
+  obtain ⟨dfa, hdfa, _⟩ := dfa w d p
+  have h := terms_within_single lex w d p hw hv ((sortedBytes_iff lex).mp hs)
+  unfold termsWithinSeg at h
+  unfold termsWithinSegBytes
+  rw [hdfa] at h ⊢
+  simp only at h ⊢
+  rw [findMatchesBytes_eq _ _ (next_valid w d p hw dfa hdfa) lex hv]
+  exact h
+
+/-- A lexicon in byte order with 2-, 3- and 4-byte characters on both sides of the surrogate
+    block; the walk for `a` within distance 1 steps over `a\ud7ff` ... `a\U00010000`. -/
+example : termsWithinSegBytes [[97, 0xD7FF], [97, 0xE000, 0xE9], [97, 0x10000], [98]] [97] 1 0 =
+    .ok [[97, 0xD7FF], [97, 0x10000], [98]] := by
+  rw [terms_within_single_bytes _ _ _ _ (by simp [Valid, Scalar, maxCodePoint])
+    (by simp [Valid, Scalar, maxCodePoint])
+    (by rw [sortedBytes_iff]; simp [SortedLex]; decide)]
+  simp [within, sharePrefix, lev, ed, neq]
+
 /-- Full statement of "the same for one segment or many". -/
 def multi_eq_single_full : Prop :=
   ∀ (lex : List (List Nat)) (w : List Nat) (d p : Nat), Valid w → (∀ t, t ∈ lex → Valid t) → SortedLex lex →
@@ -246,7 +307,7 @@ example : termsWithinSeg [[97], [97, 98, 99], [98, 98, 98]] [97, 98] 1 1 =
     termsWithinBase [[97], [97, 98, 99], [98, 98, 98]] [97, 98] 1 1 ∧
     termsWithinBase [[97], [97, 98, 99], [98, 98, 98]] [97, 98] 1 1 = .ok [[97], [97, 98, 99]] := by
   constructor
-  · apply multi_eq_single_partial _ _ _ _ (by simp [Valid, maxCodePoint]) (by simp [Valid, maxCodePoint])
+  · apply multi_eq_single_partial _ _ _ _ (by simp [Valid, Scalar, maxCodePoint]) (by simp [Valid, Scalar, maxCodePoint])
       (by simp [SortedLex]; decide)
     intro t ht _
     simp only [List.mem_cons, List.not_mem_nil, or_false] at ht
@@ -272,7 +333,7 @@ theorem single_segment_misses_transposition :
       termsWithinBase [[98, 97]] [97, 98] 1 0 = .ok [[98, 97]] := by
   refine ⟨by simp [osa, ed, neq], ?_, ?_, ?_⟩
   · rw [nfa]; simp [sharePrefix, lev, ed, neq]
-  · rw [terms_within_single _ _ _ _ (by simp [Valid, maxCodePoint]) (by simp [Valid, maxCodePoint])
+  · rw [terms_within_single _ _ _ _ (by simp [Valid, Scalar, maxCodePoint]) (by simp [Valid, Scalar, maxCodePoint])
       (by simp [SortedLex])]
     simp [within, sharePrefix, lev, ed, neq]
   · rw [terms_within_multi]; simp [within, sharePrefix, osa, ed, neq]
@@ -280,7 +341,7 @@ theorem single_segment_misses_transposition :
 /-- Hence "the same for one segment or many" is false of the code. -/
 theorem not_multi_eq_single : ¬ multi_eq_single_full := by
   intro h
-  have h1 := h [[98, 97]] [97, 98] 1 0 (by simp [Valid, maxCodePoint]) (by simp [Valid, maxCodePoint])
+  have h1 := h [[98, 97]] [97, 98] 1 0 (by simp [Valid, Scalar, maxCodePoint]) (by simp [Valid, Scalar, maxCodePoint])
     (by simp [SortedLex])
   obtain ⟨_, _, h2, h3⟩ := single_segment_misses_transposition
   rw [h2, h3] at h1
@@ -321,7 +382,7 @@ theorem fuzzy_query (lex : List (List Nat)) (docs : List (List (List Nat))) (w :
     documents `[ab]`, `[ba, b]`, `[]` only the first two contain a term within distance 1 of
     `ab` - `b` (one deletion); `ba` alone would not have matched. -/
 example : fuzzyDocsSeg [[97, 98], [98], [98, 97]] [[[97, 98]], [[98, 97], [98]], []] [97, 98] 1 0 = .ok [0, 1] := by
-  rw [fuzzy_query _ _ _ _ _ (by simp [Valid, maxCodePoint]) (by simp [Valid, maxCodePoint])
+  rw [fuzzy_query _ _ _ _ _ (by simp [Valid, Scalar, maxCodePoint]) (by simp [Valid, Scalar, maxCodePoint])
     (by simp [SortedLex]; decide)]
   · simp [sharePrefix, lev, ed, neq, List.zipIdx]
   · intro t; simp; constructor <;> (rintro (h | h | h) <;> simp [h])
@@ -360,14 +421,14 @@ theorem fuzzy_query_index (w : List Nat) (d p : Nat) (hw : Valid w) :
     transposition away) is not. -/
 example : fuzzyDocsIndex [97, 98] 1 0
     [([[98], [98, 97]], [[[98, 97]], [[98]]]), ([[97, 98]], [[[97, 98]]])] 0 = .ok [1, 2] := by
-  rw [fuzzy_query_index _ _ _ (by simp [Valid, maxCodePoint])]
+  rw [fuzzy_query_index _ _ _ (by simp [Valid, Scalar, maxCodePoint])]
   · simp [sharePrefix, lev, ed, neq, List.zipIdx]
   · intro s hs
     simp only [List.mem_cons, List.not_mem_nil, or_false] at hs
     rcases hs with rfl | rfl
-    · refine ⟨by simp [Valid, maxCodePoint], by simp [SortedLex], ?_⟩
+    · refine ⟨by simp [Valid, Scalar, maxCodePoint], by simp [SortedLex], ?_⟩
       intro t; simp; constructor <;> (rintro (h | h) <;> simp [h])
-    · refine ⟨by simp [Valid, maxCodePoint], by simp [SortedLex], ?_⟩
+    · refine ⟨by simp [Valid, Scalar, maxCodePoint], by simp [SortedLex], ?_⟩
       intro t; simp
 
 /-! ### `spelling.py`: suggestions -/
@@ -475,7 +536,7 @@ theorem list_corrector_partial (wl : List (List Nat)) (w : List Nat) (limit maxd
 theorem list_corrector_misses_transposition :
     listSuggest [[98, 97]] [97, 98] 5 1 0 = .ok [] ∧ osa [98, 97] [97, 98] = 1 := by
   obtain ⟨r, hr, _, hmem⟩ := listSuggest_spec [[98, 97]] [97, 98] 5 1 0 (by omega)
-    (by simp [Valid, maxCodePoint]) (by simp [Valid, maxCodePoint]) (by simp [SortedLex])
+    (by simp [Valid, Scalar, maxCodePoint]) (by simp [Valid, Scalar, maxCodePoint]) (by simp [SortedLex])
   refine ⟨?_, by simp [osa, ed, neq]⟩
   cases r with
   | nil => exact hr
